@@ -1,5 +1,5 @@
 """C32 — qubit-order optimisation returns a valid, no-worse permutation (structural clauses)."""
-from ..rules import config
+from ..rules import pure, config
 
 META = {
     "title": "Qubit-order optimisation returns a valid, no-worse permutation",
@@ -24,3 +24,4 @@ def check(ctx):
     config.argmin(ctx)
     ctx.floor("ARGMIN", 5)
     ctx.floor("ARGMIN-helpers", 6)
+    pure.check(ctx, [], ["emu_mps.optimatrix.optimiser", "emu_mps.optimatrix.permutations"])
